@@ -8,6 +8,7 @@ import XmppModel.Lemmas.NegotiateTerm
 import XmppModel.Lemmas.NegotiateDriver
 import XmppModel.Lemmas.NegotiateTee
 import XmppModel.Lemmas.NegotiateDyn
+import XmppModel.Lemmas.NegotiateFeats
 import XmppModel.Generated.C01
 /-!
 # C01 — features are negotiated only when allowed, in order, at most once
@@ -572,6 +573,34 @@ theorem C01_driver_runs_model (C : List Feature) (O : Oracle) (st0 : St) (script
     (Driver.C01.runFast C O (Driver.C01.fuelFor C script picks) (init st0 script picks)).pc.final = true :=
   ⟨runFast_eq_run C O _ _, driver_final C O st0 script picks⟩
 
+/-! ### the data handed to `Negotiate` (`Session.features`, review A C01-2) -/
+
+theorem invFt_reach {c : Conf} (h : Reach C O st0 script picks c) : InvFt c := by
+  refine reach_ind (P := InvFt) ?_ (fun c _ hc => invFt_step C O c hc) c h
+  refine ⟨?_, True.intro, ?_, ?_⟩
+  · intro h; cases h
+  · intro h; cases h
+  · intro _ h; cases h
+
+/-- **`Negotiate` is handed what `Parse` of the same feature produced on the current list**: in every
+reachable trace, every `Negotiate` call of the initiating side other than the unconditional STARTTLS
+attempt finds, under its namespace in `Session.features` (`featsOf`: the map as a function of the
+trace — filled by `Parse` calls of features whose masks hold, keyed by namespace, emptied by a
+restart), the result of a `Parse` call **of that same feature**, made since the last restart and not
+overwritten since. (Receiving side and forced attempt: the map holds nothing for them — the harness
+checks `nil`.) The real code is tied by the oracle clause `advertised|negotiate-data:*`: the
+instrumented `Parse` returns a token (feature, call number), `Negotiate` reports whether its `data`
+is the token of the latest `Parse` call of its own feature. -/
+theorem C01_negotiate_data {c : Conf} (h : Reach C O st0 script picks c) : DataOK c.tr :=
+  (invFt_reach h).ok
+
+/-- one step, readable form: when the selection loop runs a cached entry, `Session.features` holds a
+`Parse` result of exactly that feature -/
+theorem C01_negotiate_data_cached {c : Conf} (h : Reach C O st0 script picks c) (hs : c.srv = false)
+    (hp : inInit c.pc = true) {e : Entry} (he : e ∈ c.cache) :
+    ∃ k, featsOf c.tr e.f.name.ns = some (e.f, k) :=
+  (invFt_reach h).cache hs hp e he
+
 /-! ### non-vacuity: concrete runs that satisfy the hypotheses of the theorems above -/
 
 def fTls : Feature := ⟨0, ⟨nsTLS, 1⟩, 0, bSecure, true⟩
@@ -628,4 +657,11 @@ example : demoRecv.pc = .fail .policy := by decide
 example : Ev.refuse ⟨4, 1⟩ ∈ demoRecv.tr := by decide
 example : Ev.listOut (bReceived ||| bSecure ||| bAuthn) [fVol, fBind] true ∈ demoRecv.tr := by decide
 
+-- `C01_negotiate_data` is not vacuous: at the end of `demo` the map holds, under the namespace of
+-- the resource-binding feature, a `Parse` result of that very feature (and nothing for STARTTLS,
+-- whose entry was dropped by the restart)
+example : (featsOf demo.tr 3).map (·.1) = some fBind := by decide
+example : featsOf demo.tr nsTLS = none := by decide
+
 end XmppModel.Props.C01
+
